@@ -107,9 +107,11 @@ def _gen_spec(rng, stream):
 
 
 def _gen_writer(rng, stream):
-    flavour = rng.choice(["gdc", "gdc", "plain", "unknown", "public-missing-annotation"])
+    flavour = rng.choice(["gdc", "gdc", "plain", "plain-clean", "unknown", "public-missing-annotation"])
     if flavour == "gdc":
         hl = ["#version gdc-1.0.0"]
+    elif flavour == "plain-clean":
+        hl = list(CLEAN_SCHEMELESS)
     elif flavour == "plain":
         hl = [] if rng.random() < 0.5 else ["#center x"]
     elif flavour == "unknown":
@@ -140,6 +142,10 @@ def _gen_writer(rng, stream):
             "channel": rng.choice(["fd", "fd", "path", "gz", "gz"]),
             # the header object may remember another stringency than the one the writer is given
             "hmode": rng.choice([None, None, "Lenient", "Strict", "Strict"])}
+
+
+# a header that passes the header checks and names no scheme: a Strict writer opens on it and stays scheme-less
+CLEAN_SCHEMELESS = ["#version no-version", "#annotation.spec no-annotation-specification"]
 
 
 def _gen_sorting_writer(rng, stream):
@@ -191,6 +197,19 @@ def corpus():
          "reset": True, "vscheme": ["builtin", "gdc-1.0.0"],
          "tamper": [["key", "Start_Position", "Hugo_Symbol"], ["idx", "Start_Position", 0]]},
         {"kind": "line", "stream": "corpus", "spec": {"line": "1\t2", "names": None, "scheme": None, "ln": 3}},
+        # a scheme-less Strict writer whose first record is refused writes nothing for it, not even the column line
+        {"kind": "writer", "stream": "corpus", "hlines": ["#center x"], "channel": "fd",
+         "specs": [{"line": "1\ta\rb\t3", "names": ["a", "b", "c"], "scheme": None, "ln": None},
+                   {"line": "1\t2\t3", "names": ["a", "b", "c"], "scheme": None, "ln": None},
+                   {"line": "3\t4\t5", "names": ["a", "b", "c"], "scheme": None, "ln": None}]},
+        {"kind": "writer", "stream": "corpus", "hlines": CLEAN_SCHEMELESS, "channel": "fd",
+         "specs": [{"line": "1\ta\rb\t3", "names": ["a", "b", "c"], "scheme": None, "ln": None}]},
+        {"kind": "writer", "stream": "corpus", "hlines": CLEAN_SCHEMELESS, "channel": "fd",
+         "specs": [{"line": "1\ta\rb\t3", "names": ["a", "b", "c"], "scheme": None, "ln": None},
+                   {"line": "1\t2", "names": ["p", "q"], "scheme": None, "ln": None}]},
+        {"kind": "writer", "stream": "corpus", "hlines": [], "channel": "gz",
+         "specs": [{"line": "1", "names": ["a", "b"], "scheme": None, "ln": 2},
+                   {"line": "1\t2\t3", "names": ["a", "b", "c"], "scheme": None, "ln": None}]},
         # ... and a first record without columns
         {"kind": "writer", "stream": "corpus", "hlines": [], "channel": "fd",
          "specs": [{"line": "x", "names": [], "scheme": None, "ln": None},
@@ -233,6 +252,21 @@ def generate(rng, n):
     for c in R.order_special_cases():
         if c["shape"]["defect"] == "override+hdr":
             out.append({"kind": "reader", "stream": "override+hdr", "lines": c["lines"], "override": c["override"]})
+    for first in ("1\ta\rb\t3", "x\t\r\tz", "1\t\x0b\r\t2"):
+        for ch in ("fd", "path"):
+            out.append({"kind": "writer", "stream": "refused-first", "hlines": CLEAN_SCHEMELESS, "channel": ch, "hmode": None,
+                        "specs": [{"line": first, "names": ["a", "b", "c"], "scheme": None, "ln": None},
+                                  {"line": "1\t2\t3", "names": ["a", "b", "c"], "scheme": None, "ln": None},
+                                  {"line": "5\t6\t7", "names": ["a", "b", "c"], "scheme": None, "ln": 9}]})
+            out.append({"kind": "writer", "stream": "refused-first", "hlines": CLEAN_SCHEMELESS, "channel": ch, "hmode": None,
+                        "specs": [{"line": first, "names": ["a", "b", "c"], "scheme": None, "ln": None},
+                                  {"line": "1\t2", "names": ["p", "q"], "scheme": None, "ln": None}]})
+    # (a record keeps only its valid columns: an invalid MIDDLE cell leaves an empty slot, which the writer's
+    # validation refuses - "Column '2' had no value")
+    for bad in (["1\tx\ry\t3"], ["1\tx\ry\t3", "4\t\r\t6"], ["1\t\r\t3", "1\t2\t3", "7\t\r\t9"]):
+        for hl in ([], CLEAN_SCHEMELESS, CLEAN_SCHEMELESS + ["#center x"]):
+            out.append({"kind": "writer", "stream": "refused-only", "hlines": hl, "channel": "fd", "hmode": None,
+                        "specs": [{"line": b, "names": ["a", "b", "c"], "scheme": None, "ln": None} for b in bad]})
     for hm in ("Lenient", "Strict"):
         for hl in (["#center x"], ["#version v9", "#annotation.spec nope"], []):
             out.append({"kind": "writer", "stream": "header-mode", "hlines": hl, "channel": "fd", "hmode": hm,
@@ -445,7 +479,7 @@ def _reader(S, L, T, out):
         out.append("reader-strict-differs-without-errors")
 
 
-def _writer(S, L, T, out):
+def _writer(S, L, T, out, case_same_names=True):
     if S["init"][0] == "exc":
         if S["init"][1][0] == "MafFormatException":
             out.append("writer-silent-raised-format-exception")
@@ -472,7 +506,28 @@ def _writer(S, L, T, out):
     nrec = len(S["adds"])
     prefix = S["out"][:len(S["out"]) - nrec]
     expect_out = list(prefix)
+    # a scheme-less Strict writer that refuses a record before it accepted one stays scheme-less: from then on it
+    # is in another state than the Silent writer (which took its column names from that record), and the sessions
+    # are compared no further unless all records carry the same names
+    schemeless = S.get("_schemeless_at_start", False)
+    accepted = False
     for i, (a, la, ta) in enumerate(zip(S["adds"], L["adds"], T["adds"])):
+        if schemeless and not accepted and a["res"][0] == "ok" and a["res"][1]:
+            if ta["res"] != ["exc", _fmt(a["res"][1][0])]:
+                out.append("writer-strict-add-%d %r expected-first-error %r" % (i + 1, ta["res"], a["res"][1][0]))
+            # from here on the Strict writer (still scheme-less) and the Silent one (names taken from the refused
+            # record) are in different states; what remains to be said concerns the Strict session alone:
+            # a refused record contributes nothing - the column-name line comes with the first accepted record
+            if len(S["out"]) > nrec:
+                hdr = S["out"][:len(S["out"]) - nrec - 1]
+                n_acc = sum(1 for x in T["adds"] if x["res"][0] == "ok")
+                want = len(hdr) + (n_acc + 1 if n_acc else 0)
+                if T["out"][:len(hdr)] != hdr or len(T["out"]) != want:
+                    out.append("writer-strict-refused-record-left-output %r (%d accepted, %d header lines)"
+                               % (T["out"][len(hdr):][:3], n_acc, len(hdr)))
+            return out
+        if a["res"] == ["ok", []]:
+            accepted = True
         if a["res"][0] == "exc":
             if a["res"][1][0] == "MafFormatException":
                 out.append("writer-silent-raised-format-exception")
@@ -486,8 +541,14 @@ def _writer(S, L, T, out):
             if ta["res"] != a["res"]:
                 out.append("writer-strict-add-differs-without-errors")
             expect_out.append(S["out"][len(prefix) + i])
+    if schemeless and nrec > 0 and len(S["out"]) > nrec:
+        # the column-name line of a scheme-less writer is written with the first ACCEPTED record
+        hdr = S["out"][:len(S["out"]) - nrec - 1]
+        col = S["out"][len(S["out"]) - nrec - 1]
+        lines_acc = expect_out[len(prefix):]
+        expect_out = hdr + ([col] + lines_acc if lines_acc else [])
     if T["out"] != expect_out:
-        out.append("writer-strict-output-differs")
+        out.append("writer-strict-output-differs %r expected %r" % (T["out"][-3:], expect_out[-3:]))
 
 
 def _sorting_writer(S, L, T, out):
@@ -542,7 +603,8 @@ def oracle(case, obs):
     elif k == "reader":
         _reader(S, L, T, out)
     else:
-        _writer(S, L, T, out)
+        nm = {tuple(sp["names"]) if sp["names"] is not None else ("<scheme>",) + tuple(sp["scheme"] or ()) for sp in case["specs"]}
+        _writer(S, L, T, out, len(nm) <= 1)
     return out
 
 
